@@ -18,6 +18,10 @@ pub struct Case {
   pub after: u16,
   /// "pretty" | "stream" | "compact" | "default"
   pub json_style: String,
+  /// language of `run -l` (default js); "c" for the files of preprocessor lines, whose matches
+  /// end with their line break
+  #[serde(default)]
+  pub lang: Option<String>,
 }
 
 #[derive(Clone, Debug)]
@@ -65,7 +69,7 @@ pub fn strategy() -> BoxedStrategy<Choice> {
   });
   (
     prop_oneof![3 => prop::collection::vec(file.clone(), 1..5), 1 => prop::collection::vec(file, 5..30)],
-    0u8..10,
+    0u8..13,
     0u16..6,
     0u16..6,
     0u8..4,
@@ -132,8 +136,32 @@ fn render(f: &FileC) -> String {
   s
 }
 
+/// C files made of preprocessor lines (their nodes end with the line break), declarations and
+/// comments
+fn render_c(f: &FileC) -> String {
+  let nl = if f.crlf { "\r\n" } else { "\n" };
+  let mut out: Vec<String> = vec![];
+  for (i, l) in f.lines.iter().enumerate() {
+    out.push(match l {
+      Line::Call(fi, a) if fi % 2 == 0 => format!("#include <a{a}.h>"),
+      Line::Call(_, a) => format!("#define FOO{i} {a}"),
+      Line::MultiLineCall(_, a) => format!("int x{i} = {a};"),
+      Line::Comment(c) => format!("// é comment {c} 日本"),
+      Line::Blank => String::new(),
+      Line::Long(k) => format!("int y{i}; // {}", "é".repeat(300 + *k as usize * 50)),
+      Line::Other(o) => format!("#include \"b{o}.h\""),
+    });
+  }
+  let mut s = out.join(nl);
+  if f.trailing_newline && !out.is_empty() {
+    s.push_str(nl);
+  }
+  s
+}
+
 pub fn interpret(ch: &Choice, _st: &mut Stats) -> Option<Case> {
   let mut files = vec![];
+  let c_lang = ch.query >= 10;
   for (i, f) in ch.files.iter().enumerate() {
     let dir = match i % 4 {
       0 => "",
@@ -141,7 +169,11 @@ pub fn interpret(ch: &Choice, _st: &mut Stats) -> Option<Case> {
       2 => "src/deep/",
       _ => "lib/",
     };
-    files.push((format!("{dir}f{i}.js"), render(f)));
+    if c_lang {
+      files.push((format!("{dir}f{i}.c"), render_c(f)));
+    } else {
+      files.push((format!("{dir}f{i}.js"), render(f)));
+    }
   }
   let (before, after) = match ch.ctx_mode {
     0 => (0, 0),
@@ -170,6 +202,10 @@ pub fn interpret(ch: &Choice, _st: &mut Stats) -> Option<Case> {
     7 => (Some("\"$S\"".to_string()), None, None),
     // matches that include the CR of a CRLF line ending (comments run to the end of the line)
     8 => (None, None, Some("id: r3\nlanguage: JavaScript\nmessage: comment\nrule:\n  kind: comment\n".to_string())),
+    // matches that end with their line break
+    10 => (Some("#include $A".to_string()), None, None),
+    11 => (None, None, Some("id: r4\nlanguage: C\nmessage: define\nrule:\n  kind: preproc_def\n".to_string())),
+    12 => (None, None, Some("id: r5\nlanguage: C\nmessage: include\nrule:\n  kind: preproc_include\nfix: ''\n".to_string())),
     _ => (Some("`$$$T`".to_string()), None, None),
   };
   Some(Case {
@@ -180,6 +216,7 @@ pub fn interpret(ch: &Choice, _st: &mut Stats) -> Option<Case> {
     before,
     after,
     json_style,
+    lang: c_lang.then(|| "c".to_string()),
   })
 }
 
@@ -233,23 +270,24 @@ pub fn check(case: &Case, st: &mut Stats) -> CheckResult {
   let mut base: Vec<&str> = vec![];
   let is_run = case.pattern.is_some();
   if let Some(p) = &parg {
-    base.extend(["run", p.as_str(), "-l", "js"]);
+    base.extend(["run", p.as_str(), "-l", case.lang.as_deref().unwrap_or("js")]);
     if let Some(r) = &rarg {
       base.push(r);
-    }
-    if case.before == case.after && case.before > 0 {
-      base.extend(["-C", b.as_str()]);
-    } else {
-      if case.before > 0 {
-        base.extend(["-B", b.as_str()]);
-      }
-      if case.after > 0 {
-        base.extend(["-A", a.as_str()]);
-      }
     }
   } else {
     dir.write("rule.yml", case.rule_yaml.as_ref().unwrap().as_bytes());
     base.extend(["scan", "-r", "../rule.yml"]);
+  }
+  // both commands take the context flags
+  if case.before == case.after && case.before > 0 {
+    base.extend(["-C", b.as_str()]);
+  } else {
+    if case.before > 0 {
+      base.extend(["-B", b.as_str()]);
+    }
+    if case.after > 0 {
+      base.extend(["-A", a.as_str()]);
+    }
   }
   let proj = dir.path.join("proj");
   let mut args = base.clone();
@@ -270,8 +308,7 @@ pub fn check(case: &Case, st: &mut Stats) -> CheckResult {
     Ok(r) => r,
     Err(e) => fail!(format!("C16:malformed-json:{}", case.json_style), "{e}\nstdout head: {:?}\nstderr: {}", out.stdout_str().chars().take(200).collect::<String>(), out.stderr_str().chars().take(200).collect::<String>()),
   };
-  // scan has no context flags: its JSON context is always 0
-  let (before, after) = if is_run { (case.before as usize, case.after as usize) } else { (0, 0) };
+  let (before, after) = (case.before as usize, case.after as usize);
   let mut files_with_records = std::collections::BTreeSet::new();
   let mut clipped = false;
   let mut col_differs = false;
@@ -318,22 +355,18 @@ pub fn check(case: &Case, st: &mut Stats) -> CheckResult {
         }
       }
     };
-    let le = end_for(0);
+    // a match that ends with its line break covers whole lines already: nothing is left of a
+    // "current" line, the context lines start right after it
+    let le = if ends_with_nl { end_for(1).max(e) } else { end_for(0) };
+    if ends_with_nl {
+      st.label("match_ends_with_line_break");
+    }
     if le == file.len() && after > 0 {
       clipped = true;
     }
     let expect = &file[ls..le];
-    let mut ok = lines.as_bytes() == expect;
-    let mut used_le = le;
-    if !ok && ends_with_nl {
-      // a match whose text ends in a newline may count the following line either way
-      for alt in [end_for(1)] {
-        if lines.as_bytes() == &file[ls..alt.max(e)] {
-          ok = true;
-          used_le = alt.max(e);
-        }
-      }
-    }
+    let ok = lines.as_bytes() == expect;
+    let used_le = le;
     if !ok {
       fail!(
         "C16:lines",
@@ -454,7 +487,7 @@ pub fn check(case: &Case, st: &mut Stats) -> CheckResult {
 pub fn run(cfg: &RunCfg) -> i32 {
   let mut report = Report::new(
     cfg,
-    "case = (1-29 generated JavaScript files: call lines, multi-line calls, comments and strings with 2/3/4-byte characters, blank lines, lines > 512 bytes and > 64 kB, CRLF or LF, with or without trailing newline, matches at byte 0 and EOF; query: run -p (single / multi / rewrite) or scan -r (transform + fix, expandEnd); -A/-B/-C 0-5; --json / =pretty / =stream / =compact; plus the plain report). Every JSON record is recomputed from the file bytes (text, positions, lines + charCount with context, metaVariables, replacementOffsets) and every path:N:text line of the plain report against line N. evaluations = CLI runs; labels.json_records = records checked. Non-trivial = distinct case with records whose column differs from the byte column, context clipped by the file boundary, or >= 2 matching files.",
+    "case = (1-29 generated JavaScript files (or, for three of the 13 queries, C files of preprocessor lines, whose nodes end with their line break): call lines, multi-line calls, comments and strings with 2/3/4-byte characters, blank lines, lines > 512 bytes and > 64 kB, CRLF or LF, with or without trailing newline, matches at byte 0 and EOF; query: run -p (single / multi / rewrite) or scan -r (transform + fix, expandEnd); -A/-B/-C 0-5; --json / =pretty / =stream / =compact; plus the plain report). Every JSON record is recomputed from the file bytes (text, positions, lines + charCount with context, metaVariables, replacementOffsets) and every path:N:text line of the plain report against line N. evaluations = CLI runs; labels.json_records = records checked. Non-trivial = distinct case with records whose column differs from the byte column, context clipped by the file boundary, or >= 2 matching files.",
   );
   report.assume("a match whose text ends in a newline may count the following line either way");
   report.assume("a trailing \\r of a CRLF line is accepted either way in the plain report");
